@@ -41,19 +41,35 @@ MODELLED = [
     "(eps, x) = (0, 0) in the conditional distribution: the code evaluates 0.0 / 0.0 = nan; excluded from the model (cond_defined) and from "
     "the sweep (the conditional law given a zero first coordinate, at the point 0, is not defined)",
     "DependentComponentsCopula.conditional_distribution (count of +inf entries): model dep_cond, exact vm_compute correspondence on the "
-    "whole lattice in sizes 1 and 2; no theorem (it is a counter)",
+    "whole lattice in sizes 1 and 2; wave 6: theorem C11_dependent_conditional_counter (range, monotone, where h * counter equals the volume "
+    "the dependent copula gives to the strip (xi, xi+h] x (-inf, x] -- model dep_strip over the modelled volume operator) and the _refuted "
+    "companion (it is not the conditional distribution for finite x >= xi + h); the method has no caller in /repo",
+    "ClaytonCopula._inverse_conditional_distribution_2d on the CLOSED interval u in [0,1] (wave 6): hand model clayton_inv_x over extended "
+    "reals with numpy's conventions written out step by step (np.power(0, negative) = inf, inf - 1 = inf, np.power(inf, negative) = 0, "
+    "+-1 * |eps| * inf = +-inf; Model/CopulaX6.v); tied on every run at u = 0, u = 1 for every eps of the sweep and every Clayton parameter "
+    "pair with 0 < eta < 1 (implementation returns -inf / +inf exactly; oracle: anything else is a violation), at the plateau value for "
+    "dyadic eta (float computation exact; result 0), and by Interval cases inside; linked by theorem to clayton_inv",
+    "ClaytonCopula.__call__ on all-infinite vectors (wave 6): model clayton_x / clayton_x_defined (Model/CopulaX6.v), every sign pattern in "
+    "d = 1, 2, 3 for every Clayton parameter pair on every run: +-inf exactly as the model says, nan exactly where clayton_x_defined = false "
+    "(eta in {0,1}); oracle: for 0 < eta < 1 the value must be +-inf with the orthant's sign",
     "generic LevyCopula.inverse_conditional_distribution (scipy Newton called without a starting point): raises ValueError for every "
     "copula that does not override it (independent copula; also when handed Clayton's conditional distribution through a harness "
     "subclass), DependentComponentsCopula.inverse_conditional_distribution raises by design: driven on every run, outcome recorded in the "
     "evidence histogram inverse_without_closed_form, not judged (outside C11's statement: Clayton overrides the inverse); if the generic "
     "solver ever returns, its value must invert the conditional distribution (oracle)",
     "levycopulaseries.py (np.sum of a generator under numpy 2.5): outside C11's statement; not covered",
-    "argument vectors whose entries are all infinite: implementation returns +-inf (nan for Clayton with eta in {0,1}); outside the model",
+    "argument vectors whose entries are all infinite: inside the extended models indep_x / dep_x / clayton_x (the nan cases of Clayton with "
+    "eta in {0,1} are characterised by clayton_x_defined = false); copula2_ok / copula3_ok still quantify over rectangles with a finite side",
+    "inverse at the plateau value with a NON-dyadic eta (e.g. eta = 0.3, eps >= 0, u = 0.7): in floats `u >= 1 - eta` holds while u - 1 + eta = "
+    "-5.6e-17 < 0 and the code returns nan (np.power of a negative base); a single float input of probability ~2^-53 under the uniform draw, "
+    "exact arithmetic gives 0 (theorem); observed, not judged, not in the sweep",
     "FrankLevyCopula: not offered by the model helpers, not covered",
 ]
 ASSUMPTIONS = [
     "Clayton: 0 < theta; 0 <= eta <= 1 for the increasing theorems and for the extended conditional distribution (range, monotone, limits); "
-    "0 < eta < 1 for the inverse (for eta in {0,1} the conditional distribution is constant on one half-line and not invertible there)",
+    "0 < eta < 1 for the inverse (for eta in {0,1} the conditional distribution is constant on one half-line and not invertible there); "
+    "the extended inverse clayton_inv_x additionally eps <> 0 and 0 <= u <= 1 (outside: nan in the code, inv_defined / not modelled)",
+    "dependent counter vs strip volume: h > 0 and the strip's first side on one side of 0 (0 < xi or xi + h < 0) for finite x; none at x = +-inf",
     "increasing theorems: rectangles with at least one side finite at both ends (no all-infinite corner: there the values are +-inf)",
     "mixed derivative theorems: all arguments non-zero (open quadrants / octants); on the axes the code returns 0 (modelled, exact cases)",
 ]
@@ -72,11 +88,21 @@ THEOREM_NOTES = {
     "C11_generated_models": "links the py2coq translation of the two 2-d functions to the hand models over R; the float / IEEE special values are not in this link (they are in clayton_cond_x, a hand model tied by cases)",
     "C11_conditional_distribution_extended": "x in the extended reals, every real eps, only (eps, x) = (0, 0) excluded (nan in the code); limits as "
                                              "Coquelicot is_lim at +-inf and at 0, for every eta in [0,1]. The inverse at the end points u in {0, 1} "
-                                             "(x = -+inf) is not modelled",
+                                             "(x = -+inf): C11_inverse_conditional_extended (wave 6)",
+    "C11_dependent_conditional_counter": "what DependentComponentsCopula.conditional_distribution is: a counter of +inf entries in [0, len], monotone; "
+                                         "h * counter = volume of the strip (xi, xi+h] x (-inf, x] at x = +-inf (every xi) and for finite x <= xi",
+    "C11_dependent_conditional_is_volume_derivative_refuted": "for finite x >= xi + h the strip has volume h but the counter is 0: the method is not the "
+                                                              "conditional distribution of the dependent copula (unit step at xi). No caller in /repo, and "
+                                                              "C11's statement is about the Clayton conditional distribution: reported as an observation "
+                                                              "(no oracle violation, no KNOWN entry)",
+    "C11_inverse_conditional_extended": "0 < eta < 1, eps <> 0: values +inf / -inf / 0 at u = 1 / 0 / plateau, finite model elsewhere, never nan on "
+                                        "[0,1], two-sided inverse of clayton_cond_x on the whole extended line, non-decreasing. Real arithmetic: the float "
+                                        "artefact at a non-dyadic plateau value is listed in MODELLED",
+    "C11_clayton_all_infinite": "any dimension; the limit statement (the +-inf value is the limit of the finite values along the diagonal) is NOT proved",
     "all-infinite vectors": "copula2_ok / copula3_ok quantify over rectangles with a finite side; on all-infinite vectors the code returns +-inf (indep_x / "
-                            "dep_x model that, exact correspondence) and nan for Clayton with eta in {0,1} (not modelled)",
+                            "dep_x / clayton_x model that, exact correspondence) and nan for Clayton with eta in {0,1} (clayton_x_defined = false)",
 }
-LEVEL_TEXT = ("Proof: 15 Coq statements (13 theorems + 2 non-vacuity examples). The independent, completely dependent and Clayton Levy copulas (every theta > 0, eta in [0,1]) are Levy "
+LEVEL_TEXT = ("Proof: 20 Coq statements (17 theorems + 3 non-vacuity examples). The independent, completely dependent and Clayton Levy copulas (every theta > 0, eta in [0,1]) are Levy "
               "copulas in dimension 2 and 3: they vanish when an argument is 0, their one-dimensional margins computed with the code's margin "
               "operator are the identity, and EVERY rectangle of (-inf,inf]^d with a finite side -- across quadrants/octants, with end points 0 "
               "and +-inf -- has non-negative volume (Clayton: sign of the finite differences of t^(-1/theta) by the mean value theorem, assembled "
@@ -89,8 +115,13 @@ LEVEL_TEXT = ("Proof: 15 Coq statements (13 theorems + 2 non-vacuity examples). 
               "F-C11-1). Models are tied to the code on every run: the conditional distribution and its inverse are re-translated from the source by py2coq and proved equal to the models, exact vm_compute correspondence for the piecewise-linear copulas (incl. the "
               "+-inf values on all-infinite vectors), the volume/margin operators and the dependent copula's conditional distribution, "
               "Interval-certified case lemmas (1e-9) for every Clayton entry point (the conditional distribution at x = +-inf / x = 0 / eps = 0 "
-              "and x_first_derivative in d = 3 / with a zero entry included) and its pair margins. Partial: Clayton on all-infinite vectors and "
-              "the inverses without closed form (generic Newton: raises) are observed only.")
+              "and x_first_derivative in d = 3 / with a zero entry included) and its pair margins. Wave 6: the closed-form inverse on the closed "
+              "interval [0,1] with numpy's conventions (+inf / -inf / 0 at u = 1 / 0 / plateau) is the two-sided inverse of the extended conditional "
+              "distribution, a monotone bijection [-inf,+inf] <-> [0,1]; Clayton on all-infinite vectors is +-inf by the parity of the -inf entries "
+              "and nan exactly for eta in {0,1} on the orthants whose weight is 0; the dependent copula's conditional_distribution is a monotone "
+              "counter that equals the strip-volume derivative at x = +-inf and x <= xi and provably NOT for finite x >= xi + h (refuted; dead code). "
+              "Partial: py2coq regeneration of ClaytonCopula.__call__ / x_first_derivative (loops, numpy reductions) not done -- hand models tied by "
+              "Interval cases; the inverses without closed form (generic Newton: raises) are observed only.")
 LEVEL_NOTE = ("Trusted: Coq kernel, vm_compute, Interval's reflexive checker, standard real/classical axioms (Coquelicot); hand models "
               "of the copula formulas (tied by the case checks); numpy float semantics.")
 TECHNIQUE = "Coq proof over R (Coquelicot, lra/nra, MVT) + vm_compute correspondence (Q) + Interval case lemmas (R)"
@@ -133,6 +164,13 @@ Ltac abs_tests := repeat match goal with
 Ltac cl5 := unfold clayton_xderiv, theta_prod, clayton_cond_x, cond_core_x, abs_ratio; cbn -[Rpower Rabs Rdiv];
   decide_tests; cbn -[Rpower Rabs Rdiv]; abs_tests; unfold np_power_neg, xadd1, np_power_pos; decide_tests; cbn -[Rpower Rabs Rdiv];
   decide_tests; unfold Rpower.
+"""
+
+
+IV_HEADER_W6 = IV_HEADER_W5.replace("Model.Copula Model.CopulaX.", "Model.Copula Model.CopulaX Model.CopulaX6 Proofs.C11_InvX.") + """
+Ltac side6 := first [lra | unfold plateau; decide_tests; lra].
+Ltac cl6i := unfold clayton_inv, clayton_fun_b, clayton_fun_c, sgn; cbn -[Rpower Rabs]; decide_tests; cbn -[Rpower Rabs]; unfold Rpower.
+Ltac clx := unfold clayton_x, clayton_x_defined, clayton_factor, all_inf, sign_prod_neg; cbn -[Rltb Reqb]; decide_tests; cbn; repeat split; reflexivity.
 """
 
 
@@ -471,6 +509,63 @@ def correspond(res):
                     viol("after re-assigning theta / eta the copula differs from a freshly constructed copula with the same parameters", kind="reassigned",
                          entry="x_first_derivative", copula=desc, us=list(us), got=got, fresh=want, **hist)
 
+    # ---- wave 6: (a) the closed-form inverse at u = 0, 1, at the plateau value and inside, against clayton_inv_x (Model/CopulaX6.v);
+    #      (b) Clayton on all-infinite vectors against clayton_x / clayton_x_defined (nan <-> undefined) ------------------------------
+    w6_cases = []
+    inv_params = [(dsc[1], dsc[2]) for dsc, _ in clay if 0 < dsc[2] < 1] + [(3.0, 0.25), (0.7, 0.75)]
+    for th, et in inv_params:
+        cop6 = CM.make_copula(["clayton", th, et]); desc = ["clayton", th, et]; TH, ET = rlit(th), rlit(et)
+        exact_plateau = Fraction(1) - Fraction(et) == Fraction(1.0 - et) and (1.0 - et) - 1 + et == 0.0    # the float computation is exact
+        for eps in (-7.5, -1.0, -0.02, 0.02, 0.6, 12.0):
+            plateau = (1.0 - et) if eps >= 0 else et
+            for u in [0.0, 1.0] + ([plateau] if exact_plateau else []):
+                with np.errstate(all="ignore"):
+                    back = float(cop6.inverse_conditional_distribution(np.array([eps]), np.array([u]))[0])
+                res.count(("invx", th, et, eps, u), kind="clayton inverse conditional distribution at 0 / 1 / plateau")
+                res.bump("inverse_regime", "u=0" if u == 0 else "u=1" if u == 1 else "u=plateau")
+                want = -INF if u == 0 else INF if u == 1 else 0.0
+                if not back == want:
+                    viol("inverse conditional distribution at an end point / at the plateau value does not invert the conditional distribution",
+                         kind="cond_inverse_x", copula=desc, eps=eps, u=u, got=repr(back), expected=repr(want))
+                    continue
+                if u == 1.0:
+                    w6_cases.append((f"clayton_inv_x {TH} {ET} {rlit(eps)} {rlit(u)} = PInf", "apply inv_x_at_1; lra."))
+                elif u == 0.0:
+                    w6_cases.append((f"clayton_inv_x {TH} {ET} {rlit(eps)} {rlit(u)} = NInf", "apply inv_x_at_0; lra."))
+                else:
+                    w6_cases.append((f"clayton_inv_x {TH} {ET} {rlit(eps)} {rlit(u)} = Fin 0",
+                                     "apply inv_x_value_plateau; [lra | unfold plateau; decide_tests; lra]."))
+            for u in (0.0625, 0.625):
+                if min(abs(u - et), abs(u - 1 + et)) < 1e-2 or eps not in (-1.0, 0.6):
+                    continue
+                with np.errstate(all="ignore"):
+                    back = float(cop6.inverse_conditional_distribution(np.array([eps]), np.array([u]))[0])
+                res.count(("invx", th, et, eps, u), kind="clayton inverse conditional distribution (extended model, interior)")
+                res.bump("inverse_regime", "interior")
+                if math.isfinite(back):
+                    w6_cases.append((f"Rabs (fin_val RNum (clayton_inv_x {TH} {ET} {rlit(eps)} {rlit(u)}) - {rlit(back)}) <= {rlit(tol_of(back) * 1000)}",
+                                     "rewrite inv_x_interior by side6. cbn [fin_val]. cl6i. interval with (i_prec 90)."))
+    for desc, cop in clay:
+        th, et = desc[1], desc[2]
+        TH, ET = rlit(th), rlit(et)
+        for d in (1, 2, 3):
+            for us in itertools.product([-INF, INF], repeat=d):
+                with np.errstate(all="ignore"):
+                    v = float(cop(np.array(us)))
+                res.count(("clayton-xval", str(desc), us), kind=f"clayton all-infinite vector d={d}")
+                res.bump("clayton_all_infinite", "nan" if math.isnan(v) else "+inf" if v > 0 else "-inf")
+                neg = sum(1 for t in us if t < 0) % 2 == 1
+                if 0 < et < 1 and not v == (-INF if neg else INF):
+                    viol("Clayton copula on an all-infinite vector is not +-inf with the sign of the orthant", kind="xvalue", copula=desc, us=list(us), got=repr(v))
+                    continue
+                USL = lst([erlit(x) for x in us])
+                if math.isnan(v):
+                    w6_cases.append((f"clayton_x_defined {ET} {USL} = false", "clx."))
+                elif math.isinf(v):
+                    w6_cases.append((f"clayton_x_defined {ET} {USL} = true /\\ clayton_x {TH} {ET} {USL} = {'PInf' if v > 0 else 'NInf'}", "clx."))
+                else:
+                    res.broke("correspondence clayton_x", f"finite value {v} on the all-infinite vector {us} for {desc}")
+
     # the dependent copula's conditional_distribution (np.count_nonzero(x == np.inf)): every vector of the lattice in d-1 = 1, 2
     #      against the model dep_cond (exact, vm_compute); for x.size = 1 (d = 2) it must be a 0/1 non-decreasing function of x
     depc = CM.make_copula(["dep"])
@@ -527,6 +622,7 @@ def correspond(res):
             res.case_ok += 1
     _interval_cases(res, iv_cases)
     _interval_cases(res, iv_cases_w5, header=IV_HEADER_W5, tac="cl5", name="intervalx")
+    _script_cases(res, w6_cases)
 
 
 def _interval_cases(res, stmts, shard=60, header=IV_HEADER, tac="cl", name="interval"):
@@ -562,6 +658,27 @@ def _interval_cases(res, stmts, shard=60, header=IV_HEADER, tac="cl", name="inte
                       (f"Interval could not certify: {shards[k][j][:700]}\n" if j is not None else "") + out[-800:])
 
 
+
+
+def _script_cases(res, pairs, shard=80, header=None, name="w6x"):
+    """(statement, proof script) pairs: like _interval_cases, each lemma with its own script"""
+    header = header or IV_HEADER_W6
+    shards = [pairs[i:i + shard] for i in range(0, len(pairs), shard)]
+
+    def work(k):
+        body = [header]
+        for j, (st, script) in enumerate(shards[k]):
+            body.append(f"Lemma case_{j} : {st}.\nProof. {script} Qed.")
+        rc, out = coq_eval_file(PROP, f"{name}_{k}", "\n".join(body) + "\n", timeout=900)
+        return k, rc, out
+
+    res.case_lemmas += len(pairs)
+    with ThreadPoolExecutor(max_workers=6) as ex:
+        for k, rc, out in ex.map(work, range(len(shards))):
+            if rc == 0:
+                res.case_ok += len(shards[k])
+            else:
+                res.broke(f"correspondence {name}_{k}", out[-1200:])
 
 
 def matches_known(v, known):
@@ -631,6 +748,15 @@ def replay(path):
             back = float(cop.inverse_conditional_distribution(np.array([data["eps"]]), np.array([data["u"]]))[0])
             print("inverse ->", back, "expected", data["x"])
             return 0 if abs(back - data["x"]) <= 1e-6 * max(1, abs(data["x"])) else 1
+        if kind == "cond_inverse_x":
+            back = float(cop.inverse_conditional_distribution(np.array([data["eps"]]), np.array([data["u"]]))[0])
+            print("inverse ->", back, "expected", data["expected"])
+            return 0 if repr(back) == data["expected"] or back == float(data["expected"]) else 1
+        if kind == "xvalue":
+            v = float(cop(np.array([float(t) for t in data["us"]])))
+            print("copula(us) =", v)
+            neg = sum(1 for t in data["us"] if float(t) < 0) % 2 == 1
+            return 0 if v == (-INF if neg else INF) else 1
         if kind == "dep_cond":
             got = int(cop.conditional_distribution(data["eps"], np.array(data["x"], dtype=float)))
             print("conditional_distribution =", got)
